@@ -5292,6 +5292,12 @@ namespace awkward {
 
   const ContentPtr
   NumpyArray::unique() const {
+    if (ndim() != 1) {
+      throw std::runtime_error(
+        std::string("FIXME: operation not yet implemented: NumpyArray::unique for ")
+        + std::to_string(ndim()) + std::string(" dimentional array")
+        + FILENAME(__LINE__));
+    }
     return unique_data();
   }
 
@@ -5351,6 +5357,12 @@ namespace awkward {
         + FILENAME(__LINE__));
     }
 
+    if (ndim() != 1) {
+      throw std::runtime_error(
+        std::string("FIXME: operation not yet implemented: NumpyArray::is_subrange_equal for ")
+        + std::to_string(ndim()) + std::string(" dimentional array")
+        + FILENAME(__LINE__));
+    }
     if (!iscontiguous()) {
       return contiguous().is_subrange_equal(starts, stops);
     }
